@@ -22,7 +22,8 @@ Inductive mbox := MBNone | MBNever | MBPending (s : nat) | MBFull (s : nat) | MB
 Record ghost := {
   mb : mbox;
   woken : bool;                 (* the fiber taken out of the slot has been scheduled *)
-  gave : bool;                  (* the target stored its result into the joiner's mailbox *)
+  gave : bool;                  (* the taker stored into the sleeping joiner's mailbox: the target its result,
+                                   a (repaired) detach the FIBER_JOIN_DETACHED mark *)
   gfin : option Z;              (* Some R: the target executed its `result` store with R *)
   gsucc : list (nat * Z * option Z);
                                 (* joins/tryjoins that returned SUCCESS, newest first:
@@ -92,7 +93,7 @@ Definition gnext (s : st) (t : nat) (g : ghost) : ghost :=
               | Some (FStWrite _ _, DReady _ _ _) => true
               | _ => woken g
               end;
-     gave := match top2 with Some (CStoreC _ _ _, TGave _) => true | _ => gave g end;
+     gave := match top2 with Some (CStoreC _ _ _, TGave _) | Some (CStoreC _ _ _, DSent _ _ _) => true | _ => gave g end;
      gfin := match top2 with Some (CStoreC _ v _, TStored) => Some v | _ => gfin g end;
      gsucc := match succ_a, succ_b with
               | Some v, _ => (t, v, gfin g) :: gsucc g
@@ -128,18 +129,18 @@ Definition g0 : ghost :=
      dwr := false; jwr := false; stolen_d := false; stolen_j := false; gdet := false;
      late := fun _ => false; bad_late := false; released := false; touched := false; jod := false |}.
 
-Definition iinit (g : bool) (progs : list (list jop)) : gst := {| base := init g progs; gh := g0 |}.
+Definition iinit (fx g : bool) (progs : list (list jop)) : gst := {| base := init fx g progs; gh := g0 |}.
 
-Inductive ireach (g : bool) (progs : list (list jop)) : gst -> Prop :=
-| ir_init : ireach g progs (iinit g progs)
-| ir_step x t : ireach g progs x -> status_of (base x) t = SReady -> ireach g progs (istep x t).
+Inductive ireach (fx g : bool) (progs : list (list jop)) : gst -> Prop :=
+| ir_init : ireach fx g progs (iinit fx g progs)
+| ir_step x t : ireach fx g progs x -> status_of (base x) t = SReady -> ireach fx g progs (istep x t).
 
 Lemma istep_erase x t : base (istep x t) = fst (step (base x) t).
 Proof. reflexivity. Qed.
 
-Lemma ireach_reachable g progs x : ireach g progs x -> reachable M (init g progs) (base x).
+Lemma ireach_reachable fx g progs x : ireach fx g progs x -> reachable M (init fx g progs) (base x).
 Proof.
-  induction 1; [constructor|]. cbn [istep base]. now apply (reach_step M (init g progs) (base x) t).
+  induction 1; [constructor|]. cbn [istep base]. now apply (reach_step M (init fx g progs) (base x) t).
 Qed.
 
 (* run a schedule on the instrumented machine (ungranted picks are no-ops) *)
@@ -147,7 +148,7 @@ Definition igrant (x : gst) (t : nat) : gst :=
   match status_of (base x) t with SReady => istep x t | _ => x end.
 Definition irun (x : gst) (sch : list nat) : gst := fold_left igrant sch x.
 
-Lemma ireach_irun g progs sch : forall x, ireach g progs x -> ireach g progs (irun x sch).
+Lemma ireach_irun fx g progs sch : forall x, ireach fx g progs x -> ireach fx g progs (irun x sch).
 Proof.
   induction sch as [|t r IH]; intros x R; cbn; auto. apply IH. unfold igrant.
   destruct (status_of (base x) t) eqn:E; auto. now constructor.
@@ -165,14 +166,22 @@ Definition spinning_cw (x : gst) (t : nat) : bool :=
 (* Witnesses (vm_compute): what is false of the faithful model.          *)
 Definition rep {A} (n : nat) (a : A) : list A := repeat a n.
 
-(* F-C04a: fiber 1 blocks in fiber_join; fiber 2 detaches; the join returns
-   SUCCESS / NULL although the target has not even started to finish. *)
+(* F-C04a, on the model of the code BEFORE the repair 4ff1f32 (first parameter
+   of iinit = false): fiber 1 blocks in fiber_join; fiber 2 detaches; the join
+   returns SUCCESS / NULL although the target has not even started to finish. *)
 Definition wa_progs := [[JFinish 7]; [JJoin]; [JDetach]].
 Definition wa_sched := rep 10 1%nat ++ rep 4 2%nat ++ rep 6 1%nat.
 Lemma witness_a :
-  let x := irun (iinit true wa_progs) wa_sched in
+  let x := irun (iinit false true wa_progs) wa_sched in
   gsucc (gh x) = [(1%nat, 0, None)] /\ gfin (gh x) = None /\ dwr (gh x) = true /\ jwr (gh x) = false /\
   stk (base x) 0%nat = [Start; FC (JNext [JFinish 7] 1)].
+Proof. vm_compute. repeat split. Qed.
+
+(* the same programs and schedule on the model of the repaired code: the woken
+   join returns ERROR (no success is recorded, fiber 1 has returned) *)
+Lemma witness_a_repaired :
+  let x := irun (iinit true true wa_progs) (wa_sched ++ [1%nat]) in
+  gsucc (gh x) = [] /\ stack_empty x 1 = true /\ gdet (gh x) = true /\ dwr (gh x) = true.
 Proof. vm_compute. repeat split. Qed.
 
 (* F-C04c: fiber 1 blocks in fiber_join; the target finishes and exchanges
@@ -181,9 +190,9 @@ Proof. vm_compute. repeat split. Qed.
    returns SUCCESS / 7; fiber 1 wakes and returns SUCCESS / NULL; the target
    spins forever in clear_or_wait.  No detach anywhere. *)
 Definition wc_progs := [[JFinish 7]; [JJoin]; [JTry]].
-Definition wc_sched := rep 10 1%nat ++ rep 4 0%nat ++ rep 7 2%nat ++ rep 6 1%nat ++ rep 40 0%nat.
+Definition wc_sched := rep 10 1%nat ++ rep 4 0%nat ++ rep 7 2%nat ++ rep 7 1%nat ++ rep 40 0%nat.
 Lemma witness_c :
-  let x := irun (iinit true wc_progs) wc_sched in
+  let x := irun (iinit true true wc_progs) wc_sched in
   gsucc (gh x) = [(1%nat, 0, Some 7); (2%nat, 7, Some 7)] /\ dwr (gh x) = false /\ jwr (gh x) = true /\
   spinning_cw x 0 = true /\ reclaims (base x) = 0.
 Proof. vm_compute. repeat split. Qed.
@@ -195,7 +204,7 @@ Proof. vm_compute. repeat split. Qed.
 Definition wb_progs := [[JFinish 7]; [JJoin]; [JTry]].
 Definition wb_sched := rep 11 0%nat ++ rep 3 2%nat ++ rep 6 1%nat ++ rep 10 0%nat ++ rep 1 2%nat.
 Lemma witness_b :
-  let x := irun (iinit true wb_progs) wb_sched in
+  let x := irun (iinit true true wb_progs) wb_sched in
   touched (gh x) = true /\ reclaims (base x) = 1 /\ gsucc (gh x) = [(1%nat, 7, Some 7)] /\
   dwr (gh x) = false /\ jwr (gh x) = false.
 Proof. vm_compute. repeat split. Qed.
@@ -207,9 +216,21 @@ Proof. vm_compute. repeat split. Qed.
    join_info of the freed fiber. *)
 Definition wb2_sched := rep 10 1%nat ++ rep 30 0%nat ++ rep 30 2%nat.
 Lemma witness_b2 :
-  let x := irun (iinit true wb_progs) wb2_sched in
+  let x := irun (iinit true true wb_progs) wb2_sched in
   touched (gh x) = true /\ reclaims (base x) = 1 /\ spinning_cw x 2 = true /\ gsucc (gh x) = [] /\
   dwr (gh x) = false /\ jwr (gh x) = false.
+Proof. vm_compute. repeat split. Qed.
+
+(* F-C04e (what is left of F-C04a after the repair): fiber 1 sleeps in join; the
+   target finishes and exchanges WAIT_TO_JOIN -> WAIT_FOR_JOINER; before it picks
+   fiber 1 out of join_info, fiber 2's detach takes fiber 1 out (marks it, wakes
+   it: its join returns ERROR) and returns SUCCESS; the target spins forever in
+   clear_or_wait: a detached, finished fiber that is never reclaimed. *)
+Definition we_sched := rep 10 1%nat ++ rep 4 0%nat ++ rep 5 2%nat ++ rep 6 1%nat ++ rep 40 0%nat.
+Lemma witness_e :
+  let x := irun (iinit true true wa_progs) we_sched in
+  gsucc (gh x) = [] /\ gdet (gh x) = true /\ stolen_d (gh x) = true /\ gfin (gh x) = Some 7 /\
+  stack_empty x 1 = true /\ stack_empty x 2 = true /\ spinning_cw x 0 = true /\ reclaims (base x) = 0.
 Proof. vm_compute. repeat split. Qed.
 
 (* F-C04d: fiber 1's join reads NONE; fiber 2 detaches (SUCCESS); fiber 1
@@ -218,7 +239,7 @@ Proof. vm_compute. repeat split. Qed.
 Definition wd_progs := [[JFinish 7]; [JJoin]; [JDetach]].
 Definition wd_sched := rep 2 1%nat ++ rep 2 2%nat ++ rep 1 1%nat ++ rep 40 0%nat.
 Lemma witness_d :
-  let x := irun (iinit true wd_progs) wd_sched in
+  let x := irun (iinit true true wd_progs) wd_sched in
   jod (gh x) = true /\ gdet (gh x) = true /\ spinning_cw x 0 = true /\ reclaims (base x) = 0 /\
   stack_empty x 1 = true /\ stack_empty x 2 = true /\ dwr (gh x) = false.
 Proof. vm_compute. repeat split. Qed.
